@@ -16,6 +16,7 @@ import (
 	"encoding/base64"
 	"encoding/xml"
 	"errors"
+	"fmt"
 	"sync"
 
 	"mellium.im/xmlstream"
@@ -294,10 +295,21 @@ func open(ctx context.Context, h *Handler, acked bool, s *xmpp.Session, start st
 	/* #nosec */
 	defer resp.Close()
 
-	conn, err := newConn(h, s, iq, false, MaxBufferSize), nil
+	// The stream only exists if the other side accepted it.
+	tok, err := resp.Token()
 	if err != nil {
 		return nil, err
 	}
+	respStart, ok := tok.(xml.StartElement)
+	if !ok {
+		return nil, fmt.Errorf("ibb: expected IQ start token in response, got %T", tok)
+	}
+	_, err = stanza.UnmarshalIQError(resp, respStart)
+	if err != nil {
+		return nil, err
+	}
+
+	conn := newConn(h, s, iq, false, MaxBufferSize)
 	h.addStream(sid, conn)
 	return conn, nil
 }
